@@ -18,7 +18,7 @@ SPEC = {
                 relevant=("frame_", "declare_", "point_column", "channel_column", "set_", "add_param", "resubmit", "continue_on_loaded"),
                 need={"c05_checked": 5000},
                 rule="distinct (operation,outcome) sequences of disciplined histories with >= 1 shape-changing call; the three views are compared after every successful call"),
-    "C06": dict(workloads=[("c06", False, 1.0, [])], quick=520, thorough=40000, maxops=(40, 60),
+    "C06": dict(workloads=[("c06", False, 0.8, []), ("c06", False, 0.2, ["--start", "@CORPUS@", "--maxops", "16"])], quick=520, thorough=40000, maxops=(40, 60),
                 relevant=("frame_", "resubmit", "point_column", "channel_column", "declare_"),
                 need={"c06_frame_checked": 2000, "c06_column_checked": 200},
                 rule="distinct sequences containing >= 1 accepted frame or column call whose before/after snapshots were related"),
